@@ -152,6 +152,39 @@ def r_verify_e(c, pk, msg, sig):
     return r_challenge(c, sig[:32], pk, msg)
 
 
+def r_ecdsa_sign(c, d, z, k):
+    """textbook ECDSA (r, s) with nonce k; None when r or s is 0"""
+    n = c["n"]
+    R = r_mul(c, k % n, c["G"])
+    if R is None:
+        return None
+    r = R[0] % n
+    s = (pow(k, -1, n) * (z + r * d)) % n
+    return (r, s) if r and s else None
+
+
+def r_ecdsa_verify(c, r, s, Q, z):
+    n = c["n"]
+    if not (1 <= r < n and 1 <= s < n):
+        return False
+    w = pow(s, -1, n)
+    R = r_add(c, r_mul(c, (z % n) * w % n, c["G"]), r_mul(c, r * w % n, Q))
+    return R is not None and R[0] % n == r
+
+
+def r_beta(c):
+    """a primitive cube root of unity mod p (p = 1 mod 3 for all four curves): (beta*x, y) is on the curve with (x, y)"""
+    p = c["p"]
+    for g in range(2, 50):
+        b = pow(g, (p - 1) // 3, p)
+        if b != 1:
+            return b
+
+
+def r_neg(c, A):
+    return None if A is None else (A[0], (-A[1]) % c["p"])
+
+
 # ------------------------------------------------------------------ implementation side (runs in the worker)
 def _ctx(cname):
     import contextlib
@@ -206,7 +239,44 @@ def _pubkey_of_key(cname, key):
         return bip340.pubkey(bits.compute_point(key))
 
 
-IMPL = {"sign": _sign, "verify": _verify, "lift_x": _lift_x, "pubkey": _pubkey, "pubkey_of_key": _pubkey_of_key}
+def _pt(v):
+    return None if v is None else (v[0], v[1])
+
+
+def _step(cname, st):
+    """one step of a cross-function sequence; st = [kind, args...]"""
+    import bits.ecmath as ec
+    kind = st[0]
+    if kind == "mul":                      # ecmath.point_scalar_mul(k, P) with the FULL point (ECDSA, bip32, utils do this)
+        with _ctx(cname):
+            return ec.point_scalar_mul(st[1], _pt(st[2]))
+    if kind == "ecdsa_verify":             # ecmath.verify(r, s, point, digest): what bits.sig_verify calls under the SEC1 key
+        with _ctx(cname):
+            return ec.verify(st[1], st[2], _pt(st[3]), st[4])
+    if kind == "verify":
+        return _verify(cname, st[1], st[2], st[3])
+    if kind == "sign":
+        return _sign(cname, st[1], st[2], st[3], b"")
+    if kind == "pubkey_of_key":
+        return _pubkey_of_key(cname, st[1])
+    if kind == "lift_x":
+        return _lift_x(cname, st[1])
+    raise KeyError(kind)
+
+
+def _seq(cname, steps):
+    """the steps in ONE process, in this order; one ["ok", value] / ["err", None] per step"""
+    out = []
+    for st in steps:
+        try:
+            v = _step(cname, st)
+            out.append(["ok", list(v) if isinstance(v, tuple) else v])
+        except Exception:
+            out.append(["err", None])
+    return out
+
+
+IMPL = {"sign": _sign, "verify": _verify, "lift_x": _lift_x, "pubkey": _pubkey, "pubkey_of_key": _pubkey_of_key, "seq": _seq}
 
 
 def _cv(cname):
@@ -227,7 +297,27 @@ def model_call(c):
         return "c12_pubkey", [cv["p"], cv["a"], cv["b"], a[1]]
     if op == "pubkey_of_key":
         return "c12_pubkey_of_key", _cv(a[0]) + [a[1]]
+    if op == "seq":                       # a SEQUENCE of model calls: the model is a pure function, each step is judged alone
+        return [_model_step(a[0], st) for st in a[1]]
     raise KeyError(op)
+
+
+def _model_step(cname, st):
+    cv = CURVES[cname]
+    kind = st[0]
+    if kind == "mul":
+        return "c12_point_scalar_mul", [cv["p"], cv["a"], st[1], st[2]]
+    if kind == "ecdsa_verify":
+        return "c12_ecdsa_verify", _cv(cname) + [st[1], st[2], st[3], st[4]]
+    if kind == "verify":
+        return "c12_verify", _cv(cname) + [st[1], st[2], st[3]]
+    if kind == "sign":
+        return "c12_sign", _cv(cname) + [b"", st[1], st[2], st[3]]
+    if kind == "pubkey_of_key":
+        return "c12_pubkey_of_key", _cv(cname) + [st[1]]
+    if kind == "lift_x":
+        return "c12_lift_x", [cv["p"], st[1]]
+    raise KeyError(kind)
 
 
 # ------------------------------------------------------------------ the literal property on the implementation
@@ -238,7 +328,67 @@ def _try(f, *a):
         return ("err", type(e).__name__, str(e)[:120])
 
 
+def _ref_step(cname, st):
+    """what the standards require of one step, from the independent reference: ("ok", value) / ("err",) / None = no claim"""
+    cv = CURVES[cname]
+    kind = st[0]
+    if kind == "mul":
+        Q = _pt(st[2])
+        on = Q is None or (0 <= Q[0] < cv["p"] and 0 <= Q[1] < cv["p"] and (Q[1] ** 2 - Q[0] ** 3 - 7) % cv["p"] == 0)
+        if not on or Q is None or st[1] < 0:
+            return None
+        v = r_mul(cv, st[1], Q)
+        return ("ok", None if v is None else list(v))
+    if kind == "ecdsa_verify":
+        return ("ok", True) if r_ecdsa_verify(cv, st[1], st[2], _pt(st[3]), st[4]) else ("err",)
+    if kind == "verify":
+        if r_verify(cv, st[1], st[2], st[3]):
+            return None if (cname != "secp" and r_verify_e(cv, st[1], st[2], st[3]) == 0) else ("ok", "OK")
+        return ("err",)
+    if kind == "sign":
+        if len(st[1]) != 32 or len(st[3]) != 32 or not (1 <= int.from_bytes(st[1], "big") < cv["n"]):
+            return ("err",)
+        parts = r_sign_parts(cv, st[1], st[2], st[3])
+        if parts["sig"] is None:
+            return ("err",)
+        return None if (cname != "secp" and parts["e"] == 0) else ("ok", parts["sig"])
+    if kind == "pubkey_of_key":
+        v = r_pubkey(cv, st[1])
+        return ("err",) if v is None else ("ok", v)
+    if kind == "lift_x":
+        v = r_lift_x(cv, int.from_bytes(st[1], "big"))
+        return ("err",) if v is None else ("ok", list(v))
+    return None
+
+
+def _shv(v):
+    return bytes(v).hex() if isinstance(v, (bytes, bytearray)) else repr(v)
+
+
+def _show_step(st):
+    def sh(v):
+        if isinstance(v, (bytes, bytearray)):
+            return bytes(v).hex() if len(v) <= 40 else bytes(v)[:16].hex() + "..(%d bytes)" % len(v)
+        return repr(v)
+    return "%s(%s)" % (st[0], ", ".join(sh(x) for x in st[1:]))
+
+
 def prop_oracle(c):
+    if c["op"] == "seq":
+        cname, steps = c["args"]
+        got = _seq(cname, steps)
+        for i, st in enumerate(steps):
+            want = _ref_step(cname, st)
+            if want is None:
+                continue
+            g = got[i]
+            ok = (g[0] == "ok" and want[0] == "ok" and g[1] == want[1]) or (g[0] == "err" and want[0] == "err")
+            if not ok:
+                return ("in ONE process, after %s : step %d %s %s, the standard requires %s" % (
+                    " ; ".join(_show_step(x) for x in steps[:i]) or "(nothing)", i + 1, _show_step(st),
+                    "returns %s" % _shv(g[1]) if g[0] == "ok" else "raises",
+                    "the value %s" % _shv(want[1]) if want[0] == "ok" else "a refusal"))[:1500]
+        return None
     op, a = c["op"], c["args"]
     cname = a[0]
     cv = CURVES[cname]
@@ -601,15 +751,125 @@ def _small_cases(rng, T, cname):
     return out
 
 
+def _seq_cases(rng, T, cname):
+    """CROSS-FUNCTION sequences in one process: the library's other users of ecmath (ECDSA verification under the SEC1 key,
+    scalar multiplication of the full public point) before / after BIP340 under the SAME key; base points that agree in
+    one coordinate (P / -P, G / -G, R / -R, (x, y) / (beta x, y)); scalars of different lengths and with colliding int
+    hashes on one base point.  Every step is judged by the model (a pure function of the step's own arguments)."""
+    cv = CURVES[cname]
+    p, n, G = cv["p"], cv["n"], cv["G"]
+    secp = cname == "secp"
+    out = []
+
+    def seq(cls, steps):
+        out.append(case("%s-seq-%s" % (cname, cls), "seq", cname, [list(x) for x in steps], strict=False))
+
+    def rk():
+        return rng.randrange(1, n)
+    nkeys = (2 if T else 1) if secp else (6 if T else 3)
+    keys = []
+    tries = 0
+    while len(keys) < nkeys and tries < 400:
+        tries += 1
+        d = rk()
+        Pt = r_mul(cv, d, G)
+        m = rng.randbytes(rng.choice([0, 1, 32, 33]))
+        aux = rng.randbytes(32)
+        parts = r_sign_parts(cv, r_b32(d), m, aux)
+        if parts["sig"] is None or parts["e"] == 0:
+            continue
+        # the first key must have an odd-y public point, the second an even-y one, then any
+        if len(keys) == 0 and Pt[1] % 2 == 0:
+            continue
+        if len(keys) == 1 and Pt[1] % 2 == 1:
+            continue
+        keys.append((d, Pt, m, aux, parts))
+    beta = r_beta(cv)
+    M61 = 2 ** 61 - 1
+    for (d, Pt, m, aux, parts) in keys:
+        kb, pk, sg = r_b32(d), r_b32(Pt[0]), parts["sig"]
+        Podd = Pt if Pt[1] % 2 else r_neg(cv, Pt)
+        Pev = r_neg(cv, Podd)
+        dodd = d if Pt[1] % 2 else n - d           # the secret key of the odd-y point (its SEC1 encoding is 03 || x)
+        z = rng.randrange(0, 2 ** 256)
+        es = None
+        while es is None:
+            es = r_ecdsa_sign(cv, dodd, z % n, rk())
+        bad = _flip(sg, rng.randrange(512))
+        par = "oddkey" if Pt[1] % 2 else "evenkey"
+        # the full odd-y point first (scalar multiplication / ECDSA verification), then BIP340 under the x-only key
+        seq("oddpoint-mul-then-bip340-" + par, [("mul", rk(), Podd), ("verify", pk, m, sg), ("sign", kb, m, aux),
+                                                ("pubkey_of_key", kb), ("verify", pk, m, bad)])
+        seq("ecdsa-then-bip340-" + par, [("ecdsa_verify", es[0], es[1], Podd, z), ("verify", pk, m, sg), ("sign", kb, m, aux)])
+        # BIP340 first, then the other users of the same key
+        seq("bip340-then-oddpoint-" + par, [("verify", pk, m, sg), ("mul", rk(), Podd), ("ecdsa_verify", es[0], es[1], Podd, z),
+                                            ("mul", rk(), Pev), ("verify", pk, m, sg)])
+        if not secp or T:
+            seq("sign-then-ecdsa-" + par, [("sign", kb, m, aux), ("ecdsa_verify", es[0], es[1], Podd, z), ("verify", pk, m, sg)])
+            # the two secret keys of one x-only public key
+            pneg = r_sign_parts(cv, r_b32(n - d), m, aux)
+            if pneg["sig"] is not None and pneg["e"] != 0:
+                seq("key-and-negated-key", [("sign", kb, m, aux), ("sign", r_b32(n - d), m, aux), ("verify", pk, m, pneg["sig"]),
+                                            ("verify", pk, m, sg), ("pubkey_of_key", r_b32(n - d))])
+        # the nonce point and its negation as base points
+        R = parts["R"]
+        k1 = rk()
+        seq("R-negR-" + par, [("mul", k1, R), ("mul", k1, r_neg(cv, R)), ("verify", pk, m, sg)])
+    # G and -G
+    d, Pt, m, aux, parts = keys[0]
+    kb, pk, sg = r_b32(d), r_b32(Pt[0]), parts["sig"]
+    k1 = rk()
+    seq("negG-then-bip340", [("mul", k1, r_neg(cv, G)), ("sign", kb, m, aux), ("pubkey_of_key", kb), ("verify", pk, m, sg), ("mul", k1, G)])
+    seq("bip340-then-negG", [("sign", kb, m, aux), ("mul", k1, r_neg(cv, G)), ("mul", k1, G)])
+    # same y, other x:  (x, y), (beta x, y), (beta^2 x, y)
+    Q = r_mul(cv, rk(), G)
+    Qb, Qbb = (beta * Q[0] % p, Q[1]), (beta * beta * Q[0] % p, Q[1])
+    k1 = rk()
+    seq("same-y-other-x", [("mul", k1, Q), ("mul", k1, Qb), ("mul", k1, Qbb), ("mul", k1, r_neg(cv, Qb))])
+    # one base point: scalars of growing / shrinking bit length, scalars whose Python int hashes collide, 0, n, n +- 1
+    small, big = rng.randrange(1, 16), (rk() | (1 << (n.bit_length() - 2)))
+    seq("scalar-lengths", [("mul", small, Q), ("mul", big, Q), ("mul", small + 1, Q), ("mul", 0, Q), ("mul", n, Q), ("mul", n - 1, Q),
+                           ("mul", n + 1, Q), ("mul", 1, Q)])
+    k2 = rng.randrange(1, min(n, 2 ** 60))
+    if not secp or T:
+        seq("scalar-hash-collision", [("mul", k2, Q), ("mul", k2 + M61, Q), ("mul", k2 + 2 * M61, Q), ("mul", k2, Q)])
+        seq("scalar-shrinking", [("mul", big, Q), ("mul", small, Q), ("mul", big >> 1, Q)])
+    if not secp:
+        # every point of the small curve against its negation, both orders, one scalar each
+        pts = [(x, y) for x in range(p) for y in range(p) if (y * y - x ** 3 - 7) % p == 0]
+        for A in (pts if T else rng.sample(pts, 10)):
+            k1 = rk()
+            seq("P-negP-all", [("mul", k1, A), ("mul", k1, r_neg(cv, A)), ("lift_x", r_b32(A[0]))])
+        # x-only verification under every key right after its odd-y point was multiplied
+        for d in (range(1, n) if T else rng.sample(range(1, n), 8)):
+            Pt = r_mul(cv, d, G)
+            parts = r_sign_parts(cv, r_b32(d), b"m", bytes(32))
+            if parts["sig"] is None or parts["e"] == 0:
+                continue
+            Podd = Pt if Pt[1] % 2 else r_neg(cv, Pt)
+            seq("oddpoint-then-verify-all", [("mul", rk(), Podd), ("verify", r_b32(Pt[0]), b"m", parts["sig"]),
+                                             ("sign", r_b32(d), b"m", bytes(32))])
+    return out
+
+
 def gen_cases(rng, tier):
     T = tier == "thorough"
     out = _secp_cases(rng, T)
     for cname in (["c43", "c79", "c67"] if T else ["c43"]):
         out += _small_cases(rng, T, cname)
+    # the cross-function sequences come from their own random stream so that adding them does not change the cases above
+    import random as _random
+    rs = _random.Random("C12-seq-%s-%s" % (tier, rng.random()))
+    for cname in (["secp", "c43", "c79", "c67"] if T else ["secp", "c43"]):
+        out += _seq_cases(rs, T, cname)
     return out
 
 
 def shrink(c):
+    if c["op"] == "seq":
+        # not shrunk: the worker's state after the failing run (whatever the library cached) would make shorter sequences
+        # fail for the wrong reason and the replay (a fresh process) would no longer reproduce
+        return
     if c["op"] in ("sign", "verify"):
         for b in shrink_bytes(c["args"][2]):
             c2 = dict(c)
